@@ -369,8 +369,9 @@ def run_check(tier, seed):
             k = len(done)
             if k < len(lines):
                 cid = meta[k][0]
-                case = [l for l, m in zip(lines[:k + 1], meta[:k + 1]) if m[0] == cid and (m[1] in ('S', 'C') or l == lines[k])]
-                case = [l if (l[0] != 'P' or l != lines[k]) else 'C' + l[1:] for l in case if l[0] != 'P' or l == lines[k]]
+                # the whole case up to the dying line, probes included: the death may come from restoring the state
+                # after the probe before it (e.g. closing a file that a wrongly accepted call left inconsistent)
+                case = [l for l, m in zip(lines[:k + 1], meta[:k + 1]) if m[0] == cid]
                 rci, resi, erri = run_harness(hexe, case + ['E'], wd, 'isolate', timeout=120)
                 died = rci != 0 or len([x for x in resi if x]) < len(case) + 1
                 drci, lresi = run_driver(case)
